@@ -177,6 +177,7 @@ impl<'a> BootInformation<'a> {
 
 //@extract multiboot2/src/boot_information.rs :: impl<'a> BootInformation<'a> :: fn get_tag
 //@  ret r
+//@  stubonloss
 //@  closure 0: |tag: &&'a DynSizedStructure<TagHeader>| -> (b: bool) ensures b == (dyn_hdr(*tag).typ.0 == spec_tag_num(T::ID))
 //@  closure 1: |tag: &'a DynSizedStructure<TagHeader>| -> (c: &'a T) requires dyn_wf(tag) ensures cast_post(tag, c)
 //@  rewrite /self\s*\.tags\(\)\s*\.find\(/ => /tagiter_find_owned(self.tags(), /
